@@ -13,9 +13,66 @@ def demote(md):
         out.append(line)
     return '\n'.join(out)
 
+def fill(s, tag, body):
+    a, b = '<!-- GEN:%s -->' % tag, '<!-- /GEN:%s -->' % tag
+    if a not in s:
+        return s
+    i, j = s.index(a) + len(a), s.index(b)
+    return s[:i] + '\n' + body.rstrip('\n') + '\n' + s[j:]
+
+
+def gen_fixes():
+    import subprocess
+    out = subprocess.run(['git', '-C', '/repo', 'log', '--reverse', '--format=%h\t%s', '9bc97df..HEAD'],
+                         capture_output=True, text=True).stdout.strip().split('\n')
+    rows = ['| # | commit | what was wrong |', '|---|---|---|']
+    for n, l in enumerate(out, 1):
+        h, subj = l.split('\t', 1)
+        rows.append('| %d | `%s` | %s |' % (n, h, subj.replace('fix: ', '', 1).replace('|', '\\|')))
+    return '\n'.join(rows)
+
+
+def all_known():
+    import json, glob
+    res = []
+    for f in [os.path.join(VERIF, 'known_findings.json')] + sorted(glob.glob(os.path.join(VERIF, 'known_findings.d', '*.json'))):
+        if os.path.exists(f):
+            res += json.load(open(f)).get('findings', [])
+    seen, out = set(), []
+    for k in res:
+        if k['id'] not in seen:
+            seen.add(k['id']); out.append(k)
+    return out
+
+
+def gen_open():
+    rows = ['| id | property | what fails |', '|---|---|---|']
+    for k in sorted(all_known(), key=lambda k: (k['property'], k['id'])):
+        if k['status'] == 'open':
+            rows.append('| %s | %s | %s |' % (k['id'], k['property'], k['what'].replace('|', '\\|').replace('\n', ' ')[:600]))
+    return '\n'.join(rows)
+
+
+def gen_seeded():
+    import json
+    root = os.path.join(VERIF, 'seeded')
+    res = json.load(open(os.path.join(root, 'RESULTS.json'))) if os.path.exists(os.path.join(root, 'RESULTS.json')) else {}
+    rows = ['| id | files | what it changes / what it needs | verdicts (check: verdict) |', '|---|---|---|---|']
+    for sid in sorted(d for d in os.listdir(root) if os.path.isdir(os.path.join(root, d))):
+        m = json.load(open(os.path.join(root, sid, 'meta.json')))
+        v = res.get(sid, {}).get('checks', {})
+        vs = ', '.join('%s: %s' % (p, x['verdict']) for p, x in v.items()) or res.get(sid, {}).get('error', 'not run yet')
+        rows.append('| %s | %s | %s **Needs:** %s | %s |' % (sid, ', '.join(os.path.basename(f) for f in m.get('files', [])),
+                    m.get('summary', '').replace('|', '\\|').replace('\n', ' ')[:420], m.get('needs', '').replace('|', '\\|').replace('\n', ' ')[:300], vs))
+    return '\n'.join(rows)
+
+
 def main():
     p = os.path.join(VERIF, 'DESIGN.md')
     s = open(p).read()
+    s = fill(s, 'fixes', gen_fixes())
+    s = fill(s, 'open', gen_open())
+    s = fill(s, 'seeded', gen_seeded())
     heads = list(re.finditer(r'^### (C\d\d) — .*$', s, re.M))
     # process from the end so offsets stay valid
     for i in range(len(heads) - 1, -1, -1):
